@@ -6,7 +6,7 @@ import casadi as ca
 
 from .. import oracles as O
 from ..caseval import Ev
-from ..groups import base_specs, product_specs, ProductSpec, SO3Spec, SE3Spec, SE23Spec, SE2Spec, SO2Spec, angle_mix
+from ..groups import extra_euler_specs, base_specs, product_specs, ProductSpec, SO3Spec, SE3Spec, SE23Spec, SE2Spec, SO2Spec, angle_mix
 from .lie_common import (inplace_history, lib_call, euler_ok, algebra_corpus, group_corpus, run_contract_slice, configs_for_shard,
                          rot_angles, so3_of, parts_of, algebra_switch_points)
 
@@ -82,6 +82,25 @@ def principal_cross_representation(ctx, N):
             if wrap == "SO3":
                 logs[kind] = (ok, w)
     ctx.distinct(np.concatenate([axis, th[:, None]], axis=1), th > 1e-6)
+    # Euler groups of other types / sequences (public class; log is offered for them through the DCM)
+    for es in extra_euler_specs():
+        G = lib_call(ctx, "lib", es.name, es.lib)
+        if G is None:
+            continue
+        a = ca.SX.sym("a", 3)
+        ev = lib_call(ctx, "log", es.name, lambda: Ev("log", [a], [G.elem(a).log().param]))
+        if ev is None:
+            continue
+        P = es.rand(rng, N)
+        P[: N // 4, rng.integers(0, 3)] = 0.0  # triples with a zero angle as well
+        Rm = es.mat(P)
+        wantE = O.log_R(Rm)
+        ang = np.linalg.norm(wantE, axis=1)
+        ok = ang < PI - MARGIN
+        (L,), pr = ev(P[ok])
+        err = np.abs(L[:, :, 0] - wantE[ok]).max(axis=1)
+        tol = 1e-9 * np.maximum(1.0, 1.0 / np.maximum(np.sin(ang[ok]), 1e-3))
+        ctx.check_array("log_principal", es.name, err, tol, {"angle": ang[ok], "X": P[ok]})
     # explicit cross-representation agreement
     kinds = list(logs)
     for i in range(len(kinds)):
